@@ -90,6 +90,47 @@ def case(args):
     return t3.success_case(sp, yield_seed=ys, gomaxprocs=gmp, replays=("net", "tasks", "port"))
 
 
+def empty_param_case(args):
+    """a parameter stream that contains the empty string (a legal value: a blank line of a parameter file, "" in FromStr), on a
+    port the command does not mention (the value is used in the output name only): one task per value, none lost, every
+    output reaches the downstream process"""
+    seed, i = args
+    rng = random.Random(seed * 100019 + i)
+    sp = t3.Spec(maxtasks=rng.randint(1, 3), bufsize=rng.choice([1, 2, 128]))
+    n = rng.randint(2, 5)
+    vals = ["v%d" % j for j in range(n)]
+    vals[rng.randrange(0, n - 1)] = ""          # not the last one
+    if rng.random() < 0.5:
+        src = ("V", vals)
+    else:
+        src = ("U", sp.psrc("names", vals))
+    hello = sp.proc(t3.RawProc("hello", "echo hi > {o:out}", ins=[], pars=[("name", src)], outs=[("out", "hello_{p:name}.txt")]))
+    sp.proc(t3.RawProc("copy", "cat {i:in} > {o:out}", ins=[("in", [(hello, "out")])], outs=[("out", "{i:in}.copy")]))
+    sc = t3.Scratch()
+    try:
+        sc.plant(sp.files)
+        impl = t3.run_impl(sc, sp, timeout=30)
+        problems = []
+        if impl["timed_out"]:
+            problems.append(("hang", "the workflow does not terminate (values %r)" % vals))
+        elif impl["rc"] != 0 or not impl["returned"]:
+            problems.append(("unexpected-failure", "exit %s: %s" % (impl["rc"], impl["stderr"][-200:])))
+        else:
+            want = {"hello_%s.txt" % v: "hi\n" for v in vals}
+            want.update({"hello_%s.txt.copy" % v: "hi\n" for v in vals})
+            got = {p: c for p, c in t3.data_files(impl["fs"]).items()}
+            missing = sorted(set(want) - set(got))
+            if missing:
+                problems.append(("input-set-lost", "parameter values %r: no task ran for %s (outputs missing: %s)" % (vals, sorted({m.split(".")[0] for m in missing}), missing[:4])))
+            extra = sorted(set(got) - set(want))
+            if extra:
+                problems.append(("unexpected-output", "files nobody should have written: %s" % extra[:4]))
+        return {"spec": sp.text(), "bufsize": sp.bufsize, "problems": problems, "ntasks": 2 * n, "rc": impl["rc"], "stderr": impl["stderr"][-300:],
+                "yield": None, "wall": impl["wall"]}
+    finally:
+        sc.close()
+
+
 def run(rep, tier, seed):
     proved = vlib.prove(rep, MODULE, THEOREMS)
     ok, msg = vlib.build_ocaml()
@@ -97,10 +138,11 @@ def run(rep, tier, seed):
         raise RuntimeError("extraction/driver build failed: " + msg[-1500:])
     n = 150 if tier == "quick" else 3000
     results = t3.run_many(case, [(seed, i) for i in range(n)])
+    results += t3.run_many(empty_param_case, [(seed, i) for i in range(n // 12)])
     t3.report_t3(rep, MODULE, proved, results, "T3 workflows vs WfModel")
     rep.cov["evaluations"] = len(results)
     rep.cov["distinct_nontrivial"] = len({r["spec"] for r in results if r["ntasks"] >= 2})
-    rep.cov["rule"] = "random acyclic workflows (1-2 file sources, optional parameter source / FromStr, 1-5 processes with 1-2 in-ports, 1-2 outputs, SetOut patterns or default names) and special shapes (port-less process, FromStr and chains longer than the buffer, diamonds with fan-out, single-port fan-in, independent multi-slot processes, a sub-stream joined by one task), SCIPIPE_BUFSIZE in {1,2,3,128}, maxConcurrentTasks 1-4, CoresPerTask 1..max in 40% of the runs, GOMAXPROCS in {default,1,2}, seeded delays at the hook points in half of the runs; each run on the real library, compared with the Coq reference evaluator: exit status, exact file set and bytes, multiset of executed task keys; non-trivial = at least two executed tasks"
+    rep.cov["rule"] = "random acyclic workflows (1-2 file sources, optional parameter source / FromStr, 1-5 processes with 1-2 in-ports, 1-2 outputs, SetOut patterns or default names) and special shapes (port-less process, FromStr and chains longer than the buffer, diamonds with fan-out, single-port fan-in, independent multi-slot processes, a sub-stream joined by one task, parameter streams containing the empty string on a port used in the output name only), SCIPIPE_BUFSIZE in {1,2,3,128}, maxConcurrentTasks 1-4, CoresPerTask 1..max in 40% of the runs, GOMAXPROCS in {default,1,2}, seeded delays at the hook points in half of the runs; each run on the real library, compared with the Coq reference evaluator: exit status, exact file set and bytes, multiset of executed task keys; non-trivial = at least two executed tasks"
     rep.cov["samples"] = [results[0]["spec"], results[1]["spec"]]
     rep.notes["input_distribution"] = {"runs": len(results), "tasks_executed_total": sum(r["ntasks"] for r in results),
                                        "with_delays": sum(1 for r in results if r["yield"]), "bufsize_hist": {str(b): sum(1 for r in results if r["bufsize"] == b) for b in (1, 2, 3, 128)},
